@@ -890,9 +890,11 @@ func (dc *driverContextContextual) transition(driver stateTableDriver, entry tab
 		hasRep                  bool
 		markIndex, currentIndex = entry.AsMorxContextual()
 	)
-	if markIndex != 0xFFFF {
-		lookup := dc.table.Substitutions[markIndex]
-		replacement, hasRep = lookup.Class(gID(buffer.Info[dc.mark].Glyph))
+	// a lookup is missing (nil) when its offset, or the one of the substitution table, is null
+	if markIndex != 0xFFFF && int(markIndex) < len(dc.table.Substitutions) {
+		if lookup := dc.table.Substitutions[markIndex]; lookup != nil {
+			replacement, hasRep = lookup.Class(gID(buffer.Info[dc.mark].Glyph))
+		}
 	}
 	if hasRep {
 		buffer.unsafeToBreak(dc.mark, min(buffer.idx+1, len(buffer.Info)))
@@ -905,9 +907,10 @@ func (dc *driverContextContextual) transition(driver stateTableDriver, entry tab
 
 	hasRep = false
 	idx := min(buffer.idx, len(buffer.Info)-1)
-	if currentIndex != 0xFFFF {
-		lookup := dc.table.Substitutions[currentIndex]
-		replacement, hasRep = lookup.Class(gID(buffer.Info[idx].Glyph))
+	if currentIndex != 0xFFFF && int(currentIndex) < len(dc.table.Substitutions) {
+		if lookup := dc.table.Substitutions[currentIndex]; lookup != nil {
+			replacement, hasRep = lookup.Class(gID(buffer.Info[idx].Glyph))
+		}
 	}
 
 	if hasRep {
